@@ -77,3 +77,9 @@ impl TxInputsBuilder {
     #[verifier::external_body] pub fn add_native_script_input(&mut self, script: &NativeScriptSourceO, input: &TransactionInput, amount: &Value) ensures *final(self) == old(self).with_native(*script, *input, *amount) { unimplemented!() }
 }
 impl NativeScriptSourceO { pub uninterp spec fn of(s: NativeScriptO) -> NativeScriptSourceO; }
+
+// ===== the constructor ==========================================================================================================================================
+impl TxInputsBuilder { #[verifier::external_body] pub fn new() -> (r: TxInputsBuilder) ensures r.items().len() == 0 { unimplemented!() } }
+impl TransactionOutputs { #[verifier::external_body] pub fn new() -> (r: TransactionOutputs) ensures r.0@.len() == 0 { unimplemented!() } }
+impl Ed25519KeyHashes { #[verifier::external_body] pub fn new() -> (r: Ed25519KeyHashes) ensures r.keys() == Set::<Ed25519KeyHashO>::empty() { unimplemented!() } }
+impl ReferenceInputsMap { #[verifier::external_body] pub fn new_() -> (r: ReferenceInputsMap) { unimplemented!() } }
